@@ -341,7 +341,7 @@ def run(rep: Report, prog: Program, tier: str) -> None:
     description_slots_rule(rep, prog, PROP, "C14-SLOTS")
 
     # ---------------- C14-VALID: the per-section structural checks, evaluated for every section kind and defect
-    rep.rule("C14-VALID", "defective descriptions are rejected with ValueError whatever the kind of the defective section", min_instances=20)
+    rep.rule("C14-VALID", "defective descriptions are rejected with ValueError whatever the kind of the defective section", min_instances=30)
     from types import SimpleNamespace as _NS
     val_f = prog.func(PC + ".__validate_description")
     loops = [n for n in val_f.node.body if isinstance(n, ast.For) and unparse(n.iter) == "description.media"]
@@ -401,6 +401,7 @@ def run(rep: Report, prog: Program, tier: str) -> None:
             cases.append((kind, typ, "ICE username fragment missing", {"ice.usernameFragment": None}, True))
             cases.append((kind, typ, "ICE password missing", {"ice.password": ""}, True))
             cases.append((kind, typ, "DTLS role auto (actpass)", {"dtls.role": "auto"}, typ == "answer"))
+            cases.append((kind, typ, "no a=setup line at all (the parser leaves the DTLS parameters unset)", {"dtls": None}, True))
             if kind != "application":
                 cases.append((kind, typ, "rtcp-mux missing", {"rtcp_mux": False}, True))
     for kind, typ, what, defect, want_reject in cases:
